@@ -698,7 +698,12 @@ func auxCursor(r *rand.Rand, n int, emit func(E), stats map[string]int) {
 			}
 			forward := r.Intn(2)
 			target := targets[r.Intn(len(targets))]
-			obs := make([]interface{}, 0)
+			// one cursor is sought twice: it walks at most `steps` entries from the first target (reading each
+			// item once or twice), then it is sought again and walks to the end
+			target2 := targets[r.Intn(len(targets))]
+			steps := []int{0, 1, 1, 2, 3, 50}[r.Intn(6)]
+			twice := r.Intn(2) == 0
+			obs, obs2 := make([]interface{}, 0), make([]interface{}, 0)
 			errS := ""
 			ok, msg := safely(func() {
 				cur, err := tx.Cursor(forward == 1)
@@ -707,18 +712,29 @@ func auxCursor(r *rand.Rand, n int, emit func(E), stats map[string]int) {
 					return
 				}
 				defer cur.Close()
-				if err := cur.Seek(target); err != nil {
-					errS = err.Error()
-					return
-				}
-				for steps := 0; cur.Valid() && steps < 50; steps++ {
-					item, err := cur.Item()
-					if err != nil {
+				walk := func(tgt []byte, max int, into *[]interface{}) bool {
+					if err := cur.Seek(tgt); err != nil {
 						errS = err.Error()
-						return
+						return false
 					}
-					obs = append(obs, []interface{}{B(string(item.Key)), B(string(item.Value))})
-					cur.Next()
+					for n := 0; cur.Valid() && n < max; n++ {
+						item, err := cur.Item()
+						if err == nil && twice {
+							item, err = cur.Item()
+						}
+						if err != nil {
+							errS = err.Error()
+							return false
+						}
+						*into = append(*into, []interface{}{B(string(item.Key)), B(string(item.Value))})
+						if n+1 < max || max == 50 {
+							cur.Next()
+						}
+					}
+					return true
+				}
+				if walk(target, steps, &obs) {
+					walk(target2, 50, &obs2)
 				}
 			})
 			panicked := 0
@@ -768,7 +784,7 @@ func auxCursor(r *rand.Rand, n int, emit func(E), stats map[string]int) {
 				phase = "writing-tx"
 			}
 			emit(E{"kind": "cursor", "be": be, "phase": phase, "kv": enc(committed), "pending": pending, "forward": forward,
-				"target": B(string(target)), "obs": obs, "gets": fg, "err": errS, "panicked": panicked})
+				"target": B(string(target)), "steps": steps, "target2": B(string(target2)), "obs": obs, "obs2": obs2, "gets": fg, "err": errS, "panicked": panicked})
 			stats["cursor/"+be+"/"+phase]++
 		}
 		b.Destroy()
